@@ -15,16 +15,6 @@ namespace TaRs.Gen.CommodityChannelIndex
 open TaRs TaRs.Rs
 variable {F : Type} [Scalar F]
 
-/-- sequencing of two steps that cannot fail: if the first step succeeds with a result satisfying
-    `P` and the continuation succeeds on every such result, the whole succeeds.  Used with the
-    components' `next_total`, whose input is found by unification: it is never written down. -/
-theorem bind_total {α β : Type} {o : Option α} {f : α → Option β} {P : α → Prop} {Q : β → Prop}
-    (h : ∃ r, o = some r ∧ P r) (k : ∀ r, P r → ∃ q, f r = some q ∧ Q q) :
-    ∃ q, o.bind f = some q ∧ Q q := by
-  obtain ⟨r, e, hp⟩ := h
-  subst e
-  exact k r hp
-
 theorem nextBar_total (s : CommodityChannelIndex F) (b : Bar F) (h : WF s) :
     ∃ r, s.nextBar b = some r ∧ WF r.1 ∧ r.1.period_fn = s.period_fn := by
   unfold nextBar
